@@ -11,19 +11,21 @@ ap = argparse.ArgumentParser()
 ap.add_argument("prop"); ap.add_argument("patch"); ap.add_argument("--tier", default="quick"); ap.add_argument("--seed", default="0")
 ap.add_argument("--keep", action="store_true"); ap.add_argument("--base", default="HEAD")
 a = ap.parse_args()
-wt = "/tmp/try_%s_%s" % (a.prop, hashlib.sha1(os.path.abspath(a.patch).encode()).hexdigest()[:8])
+# layout <root>/wt (scratch worktree) + <root>/cache (its build cache): same relative paths for every scratch tree,
+# so lib/ompl_build.py can compile through ccache and only the files the change touches are really compiled
+root = "/tmp/try_%s_%s" % (a.prop, hashlib.sha1(os.path.abspath(a.patch).encode()).hexdigest()[:8])
+wt = os.path.join(root, "wt")
+os.makedirs(root, exist_ok=True)
 subprocess.run(["git", "-C", "/repo", "worktree", "remove", "--force", wt], capture_output=True)
 r = subprocess.run(["git", "-C", "/repo", "worktree", "add", "--detach", wt, a.base], capture_output=True, text=True)
 if r.returncode: sys.exit("worktree: " + r.stderr)
-alt = os.path.join(V, ".cache", "alt-" + hashlib.sha1(wt.encode()).hexdigest()[:10])
+alt = os.path.join(root, "cache")
 try:
     r = subprocess.run(["git", "-C", wt, "apply", os.path.abspath(a.patch)], capture_output=True, text=True)
     if r.returncode: sys.exit("patch does not apply: " + r.stderr)
     # warm start: copy the main libompl cache so only the touched objects rebuild
-    main = os.path.join(V, ".cache", "ompl-build")
-    if os.path.isdir(main) and not os.path.isdir(alt):
-        os.makedirs(alt)
-    env = dict(os.environ, VERIF_REPO=wt, VERIF_SEED=a.seed)
+    os.makedirs(alt, exist_ok=True)
+    env = dict(os.environ, VERIF_REPO=wt, VERIF_SEED=a.seed, VERIF_ALT_CACHE=alt)
     r = subprocess.run([sys.executable, "run.py", "check", a.prop, "--tier", a.tier], cwd=V, env=env, capture_output=True, text=True)
     lines = [l for l in (r.stdout + r.stderr).splitlines() if "VIOLATION" in l or "KNOWN-FINDING" in l or "done:" in l or "property failure" in l or "disagree" in l]
     viol = [l for l in lines if l.startswith("VIOLATION")]
@@ -37,11 +39,11 @@ try:
             if l.startswith("VIOLATION"):
                 rp = l.split("replay=")[1].split()[0]
                 dst = os.path.join(os.path.dirname(os.path.abspath(a.patch)), "replay.json")
-                try: shutil.copy(os.path.join(V, rp), dst)
+                try: shutil.copy(rp if os.path.isabs(rp) else os.path.join(V, rp), dst)
                 except Exception: pass
                 break
     sys.exit(r.returncode)
 finally:
     if not a.keep:
         subprocess.run(["git", "-C", "/repo", "worktree", "remove", "--force", wt], capture_output=True)
-        shutil.rmtree(alt, ignore_errors=True)
+        shutil.rmtree(root, ignore_errors=True)
